@@ -42,6 +42,10 @@ func (rc *CRespCodec) Decode(c CConn) (*Msg, error) {
 
 	line, err := buf.ReadLine()
 	if err != nil {
+		if buf.ReadSize() > 0 {
+			// the first line is terminated and still not a RESP array header: more bytes cannot repair it
+			return nil, codec.ErrInvalidResp
+		}
 		return nil, errors.ErrIncompletePacket
 	}
 
@@ -282,8 +286,13 @@ func (rc *CRespCodec) MSet(resp *Msg) {
 }
 
 func (rc *CRespCodec) parseLine(buf *codec.Buffer) ([]byte, error) {
+	start := buf.ReadSize()
 	line, err := buf.ReadLine()
 	if err != nil {
+		if buf.ReadSize() > start {
+			// a terminated line that is not a bulk header is a protocol error, not an incomplete packet
+			return nil, codec.ErrInvalidResp
+		}
 		return nil, err
 	}
 	switch line[0] {
